@@ -4,7 +4,9 @@ import (
 	"fmt"
 	"go/types"
 	"os"
+	"runtime/debug"
 	"sort"
+	"strings"
 	"sync"
 	"time"
 
@@ -619,7 +621,19 @@ func (s *Shared) runPath(tb *TermTable, solver *Solver, prefix []Decision) {
 				status, msg = "panic", x.msg
 				gp = x
 			default:
-				panic(r)
+				st := strings.Split(string(debug.Stack()), "\n")
+				var keep []string
+				for _, l := range st {
+					if strings.Contains(l, "runFrame") || strings.Contains(l, "callFn") || strings.Contains(l, "doCall") || strings.Contains(l, "execBlock") || strings.Contains(l, "panic(") || strings.Contains(l, "runtime/panic.go") || strings.Contains(l, "interp.go:2") && false {
+						continue
+					}
+					keep = append(keep, l)
+					if len(keep) > 40 {
+						break
+					}
+				}
+				fmt.Fprintf(os.Stderr, "gosmt: INTERNAL ERROR: %v\n  go stack of code under test:%s\n%s\n", r, c.extra["internalWhere"], strings.Join(keep, "\n"))
+				os.Exit(4)
 			}
 		}()
 		c.callFn(s.harness, nil, nil)
